@@ -4,6 +4,7 @@ import Restful.Model.Registry
 namespace Restful
 namespace TieImp
 open Imp
+set_option linter.unusedSimpArgs false
 
 namespace T14
 
@@ -95,17 +96,17 @@ theorem add_handler (X : ImpGen.Ext)
   dsimp only
   simp only [deref, Option.bind_eq_bind, Option.bind_some, T2.fixed_prefix_path, hg, T14.slash_lit, T14.empty_lit, T14.hadd_eq]
   generalize Registry.fixedPrefixPath s.root = pattern
+  -- the test "is this the root pattern" in whatever form the code writes it (`"/" == pattern || "" == pattern`,
+  -- a `switch pattern { case "/", "": … }`, the operands swapped) is normalised to the model's proposition
+  have e1 : (['/'] = pattern) = (pattern = ['/']) := propext eq_comm
+  have e2 : ([] = pattern) = (pattern = []) := propext eq_comm
+  simp only [beq_iff_eq, Bool.or_eq_true, e1, e2]
   by_cases hroot : pattern = ['/'] ∨ pattern = []
-  · have hb : (['/'] == pattern || [] == pattern) = true := by
-      rcases hroot with h | h <;> subst h <;> rfl
-    rw [if_pos hb, if_pos hroot, hmux]
+  · simp only [if_pos hroot, hmux]
     unfold Registry.reg
     cases Mux.register t ['/'] .dispatch <;> rfl
-  · have hb : ¬ (['/'] == pattern || [] == pattern) = true := by
-      intro h
-      simp only [Bool.or_eq_true, beq_iff_eq] at h
-      exact hroot (h.imp Eq.symm Eq.symm)
-    rw [if_neg hb, if_neg hroot, T14.mapped_loop g]
+  · simp only [if_neg hroot]
+    rw [T14.mapped_loop g]
     case hf =>
       intro r acc
       simp only [Option.bind_some, hg, T14.mappedStep]
@@ -142,8 +143,8 @@ theorem remove_route (X : ImpGen.Ext) (s : Registry.Svc) (gr : RouteDecl → Imp
     rw [T14.filter_loop gr (fun r => !(r.method == method && concatPath s.svc.rootPath r.relPath == path))]
     · simp
     · intro r acc
-      simp only [(hgr r).1, (hgr r).2]
-      cases (r.method == method && concatPath s.svc.rootPath r.relPath == path) <;> rfl
+      simp only [(hgr r).1, (hgr r).2, bne]
+      cases (r.method == method) <;> cases (concatPath s.svc.rootPath r.relPath == path) <;> rfl
 
 end TieImp
 end Restful
